@@ -160,3 +160,83 @@ func (o iotest1) Read(p []byte) (int, error) {
 	}
 	return o.r.Read(p[:1])
 }
+
+// Long runs without any quote or comment marker (a big numeric array), followed by a comment whose first byte lands at every
+// offset around the multiples of 4096 of that run: a filter that hands marker-free text on in blocks must still hold back a
+// trailing '/' until it knows what follows it.
+func TestVerif_C17_LongRuns(t *testing.T) {
+	m := mon.New("C17", "longruns")
+	defer m.Finish(t)
+	m.Rule("longruns: documents {\"k\":[<run>] with a marker-free run of digits and commas of every length 4070..4120, 8170..8215, 12260..12310, 16360..16400 (and thorough: " +
+		"every length 1..20000), then a // or /* */ comment, then the rest; read whole, in 7-byte reads, in 4096-byte reads and cut at the multiples of 4096 ±1; oracle as C17; " +
+		"distinct = (run length mod 4096 class, comment kind, read mode)")
+	var lens []int
+	for _, c := range [][2]int{{4070, 4120}, {8170, 8215}, {12260, 12310}, {16360, 16400}} {
+		for l := c[0]; l <= c[1]; l++ {
+			lens = append(lens, l)
+		}
+	}
+	if !m.Quick() {
+		lens = lens[:0]
+		for l := 1; l <= 20000; l++ {
+			lens = append(lens, l)
+		}
+	}
+	n := len(lens) * 2 * 4
+	m.Require("evaluations", int64(n))
+	mon.Parallel(n, func(w, i int) {
+		r := m.Rand("longruns", i)
+		L, kind, mode := lens[i/8], i/4%2, i%4
+		m.Case()
+		run := bytes.Repeat([]byte("12,"), L/3+1)[:L]
+		if run[L-1] == ',' {
+			run[L-1] = '7'
+		}
+		plain := append(append([]byte(`{"k":[`), run...), []byte(`,5],"z":"s"}`)...)
+		comment := []byte("/* c \" */")
+		if kind == 1 {
+			comment = []byte("// c \" \n")
+		}
+		decorated := append(append(append([]byte(`{"k":[`), run...), comment...), []byte(`,5],"z":"s"}`)...)
+		var want interface{}
+		if err := json.Unmarshal(plain, &want); err != nil {
+			m.Violationf("harness:c17-longruns-generator", nil, "%v", err)
+			return
+		}
+		var rd io.Reader
+		switch mode {
+		case 0:
+			rd = bytes.NewReader(decorated)
+		case 1:
+			rd = &vnet.CutReader{Data: decorated, Cut: len(decorated), Seg: vnet.SegRandom(r.Split(), 7)}
+		case 2:
+			rd = &vnet.CutReader{Data: decorated, Cut: len(decorated), Seg: vnet.SegRandom(r.Split(), 4096)}
+		default:
+			var cuts []int64
+			for b := int64(4096); b < int64(len(decorated))+4096; b += 4096 {
+				cuts = append(cuts, b-1, b, b+1, b+6, b+7)
+			}
+			rd = &vnet.CutReader{Data: decorated, Cut: len(decorated), Seg: vnet.SegCuts(cuts)}
+		}
+		m.Classf("run%%4096=%d/kind%d/mode%d", (L+2)%4096/512, kind, mode)
+		rep := map[string]interface{}{"case": i, "run_length": L, "comment": string(comment), "mode": mode}
+		m.Guard("json.longruns", nil, func() {
+			out, err := ioutil.ReadAll(ojson.NewJsonPlusReader(rd))
+			if err != nil {
+				m.Violationf("c17:reader-error:long-run", rep, "reader failed on a valid document: %v", err)
+				return
+			}
+			var got interface{}
+			if err := json.Unmarshal(out, &got); err != nil {
+				k := bytes.IndexByte(out[6:], '/')
+				m.Violationf("c17:decode-error:long-run", rep, "reader output no longer decodes (%v); first '/' in the output at %d", err, k)
+				return
+			}
+			gb, _ := json.Marshal(got)
+			wb, _ := json.Marshal(want)
+			if !bytes.Equal(gb, wb) {
+				m.Violationf("c17:value-differs:long-run", rep, "decoded value differs from the standard decoder's")
+			}
+		})
+	})
+}
